@@ -125,6 +125,11 @@ class _Canon:
         return {'ref': n}
       items = sorted((self.go(e) for e in x), key=repr)
       return {'#': n, type(x).__name__: items}
+    if isinstance(x, stubmod.TempBox):
+      n, seen = self._number(x)
+      if seen:
+        return {'ref': n}
+      return {'#': n, 'box': [self.go(e) for e in x.children]}
     if isinstance(x, stubmod.Rec):
       n, seen = self._number(x)
       if seen:
